@@ -61,9 +61,35 @@ def gen_interrupted_execute(rnd, spec):
     return {"watchdog": 40, "inject": common.inject_conf(rnd, 0.5), "generations": [gen], "meta": {"direction": "none"}}
 
 
+def gen_hogged_execute(rnd, spec):
+    """A coroutine payload keeps its loop to itself for 1.3 s in one synchronous section while threads call execute() for that
+    flavour: the executed payloads wait their turn and then run in that loop like everything else."""
+    fl = {4: "asyncio", 5: "asyncio", 6: "trio"}.get(spec.get("shard") if spec.get("case_index") == 5 else None) or rnd.choice(["asyncio", "asyncio", "trio"])
+    gen = {"accept_delay": 0.03, "services": [], "grace": 0.3, "ticker": True,
+           "payloads": [{"id": "heart_" + f, "flavour": f, "when": "queued", "program": [["ctx"], ["beat", 0.01, None]], "cleanup": {"kind": "none"}} for f in common.COROUTINE]}
+    gen["payloads"].append({"id": "hog", "flavour": fl, "when": "queued", "cleanup": {"kind": "none"},
+                            "program": [["sleep", 0.05], ["ctx"], ["crit_hold", 1.3], ["beat", 0.02, None]]})
+    gen["payloads"].append({"id": "other", "flavour": fl, "when": "queued", "cleanup": {"kind": "none"},
+                            "program": [["crit", 300], ["sleep", 0.005]] * 30 + [["beat", 0.02, None]]})
+    script = [["wait_running", 10]]
+    for i in range(rnd.randint(1, 3)):
+        gen["payloads"].append({"id": "xhog%d" % i, "flavour": fl, "executed": True, "cleanup": {"kind": "none"},
+                                "program": [["ctx"], ["crit", 300], ["sleep", 0.01], ["crit", 300], ["return", "str"]]})
+        if rnd.random() < 0.5:
+            gen["payloads"].append({"id": "hcaller%d" % i, "flavour": "threading", "when": "queued", "cleanup": {"kind": "none"},
+                                    "program": [["sleep", rnd.choice([0.1, 0.15, 0.25])], ["execute", "xhog%d" % i]]})
+        else:
+            script.append(["thread", [["sleep", rnd.choice([0.1, 0.15, 0.25])], ["execute", "xhog%d" % i]]])
+    gen["script"] = script + [["sleep", 2.2], ["quiesce"]]
+    gen["tags"] = ["execute_while_a_payload_keeps_the_loop_for_1.3_s"]
+    return {"watchdog": 40, "inject": None, "generations": [gen], "meta": {"direction": "none"}}
+
+
 def gen_case(rnd, spec):
     if (spec.get("case_index") == 5 and spec.get("shard") in (0, 1, 2, 3)) or rnd.random() < 0.03:
         return gen_interrupted_execute(rnd, spec)
+    if (spec.get("case_index") == 5 and spec.get("shard") in (4, 5, 6)) or rnd.random() < 0.03:
+        return gen_hogged_execute(rnd, spec)
     gen = {"accept_delay": rnd.choice([0.03, 0.05]), "payloads": [], "services": [], "grace": 0.2, "ticker": True}
     long_blocker = False
     script = [["wait_running", 10]]
@@ -565,7 +591,7 @@ def finish(total, tier):
     need = ["synchronous_sections_checked", "blocking_thread_payloads_observed", "heartbeats_during_blocking", "scenarios_with_foreign_loop_submitter",
             "steps_adopted_threading", "sections_that_adopt_checked", "blocking_executes_observed", "scenarios_with_crowd", "scenarios_with_no_threads",
             "scenarios_with_parked_payloads_and_gc", "scenarios_with_thread_payload_adopted_again_while_running", "scenarios_with_compute_bound_thread_payload", "scenarios_with_adoption_of_16_blocking_thread_payloads_in_one_go", "callbacks_of_a_shipped_trio_service_checked", "scenarios_with_interrupt_in_a_thread_waiting_in_execute", "ends_by_thread_failure_beside_a_blocked_thread_checked", "compute_bound_thread_payloads_observed",
-            "scenarios_with_execute_from_foreign_trio_worker", "synchronous_first_sections_of_plain_callables_checked", "scenarios_with_shutdown_window", "payload_endings_checked", "scenarios_with_rival_runtime", "scenarios_with_rival_accepts", "scenarios_with_service_with_blocking_constructor_built_by_a_thread_payload", "daemon_configurations_loaded_by_the_runtimes_own_asyncio_payload"]
+            "scenarios_with_execute_from_foreign_trio_worker", "scenarios_with_execute_while_a_payload_keeps_the_loop_for_1.3_s", "synchronous_first_sections_of_plain_callables_checked", "scenarios_with_shutdown_window", "payload_endings_checked", "scenarios_with_rival_runtime", "scenarios_with_rival_accepts", "scenarios_with_service_with_blocking_constructor_built_by_a_thread_payload", "daemon_configurations_loaded_by_the_runtimes_own_asyncio_payload"]
     need += ["steps_%s_%s" % (r, f) for r in ("adopted", "service", "executed") for f in common.COROUTINE]
     for name in need:
         if not total.counters.get(name) and not total.violations:
